@@ -6,6 +6,7 @@ import PrqlModel.Drv.SExp
 import PrqlModel.Drv.Util
 import PrqlModel.Model.Pratt
 import PrqlModel.Model.SqlExpr
+import PrqlModel.Model.SqlPrec
 namespace Drv.Expr
 open Drv Gen.Pratt Model.PExpr Model.Pratt Model.SqlExpr Model.Val
 
@@ -143,7 +144,11 @@ def handle (fields : List String) : Option String :=
       let sp := match sql with
         | none => "na"
         | some s => if (sqlParse s).isSome then "ok" else "none"
-      some s!"src={encStr src}\trq={showP p}\tsql={match sql with | some s => encStr s | none => "-"}\treparse={reparse}\tsqlparse={sp}"
+      -- the emitter seen as `PrecU.pr npEmit` (the object of theorem sql_print_parse_partial) prints the same tokens
+      let prec := match Model.SqlPrec.toTree dl p, sql with
+        | some t, some s => if Model.SqlPrec.treeToks Model.SqlPrec.npEmit t == sqlLex s then "ok" else "bad"
+        | _, _ => "na"
+      some s!"src={encStr src}\trq={showP p}\tsql={match sql with | some s => encStr s | none => "-"}\treparse={reparse}\tsqlparse={sp}\tprec={prec}"
     | _, _ => some "err request"
   | ["c02eval", d, tree, ncols, dom] =>
     match dialect? d, (SExp.ofString tree).bind sexpr?, ncols.toNat?, ((dom.splitOn " ").filter (· != "")).mapM domVal? with
